@@ -46,7 +46,7 @@ O("C08.spec.horner", "C08", "h_C08.c", "h_C08_spec_horner",
 O("C08.kernels", "C08", "h_C08.c", "h_C08_kernels",
   "__jan00, __doy, __get_mdays equal the spec's day number of Jan 0, ordinal day and month length for every date 1901..2099",
   ["__jan00", "__doy", "__get_mdays"], solver=["minisat", "kissat"])
-O("C08.diff", "C08", "h_C08.c", "h_C08_diff",
+O("C08.diff", ["C08", "C14"], "h_C08.c", "h_C08_diff",
   "echs_instant_diff(end,beg) equals true elapsed time (pair form: whole days, ms in the day; value = days*86400000+ms in 64 bits) for all pairs of valid instants of one kind, any sign, any span",
   ["echs_instant_diff"], dfcc=True, replace=["__jan00", "__doy"],
   replace_status={"__jan00": "discharged by C08.kernels", "__doy": "discharged by C08.kernels"},
@@ -355,3 +355,14 @@ O("C07.offs", "C07", "h_C07.c", "h_C07_offs",
 O("C07.utc_local", "C07", "h_C07.c", "h_C07_utc_local",
   "zif_local_time == UTC + offset in force; zif_utc_time inverts it for local times more than a day away from every transition",
   ["zif_local_time", "zif_utc_time", "__offs"], kind="bounded", bound="<= 4 transitions", **E07)
+
+# ------------------------------------------------------------------ C14
+P("C14", level="other",
+  level_text="Killing a job is alarm()+SIGXCPU in the kernel and out of a contract's reach. Decidable with contracts, and discharged on the real code: the NUMBER that travels from the user file to the executor - DTEND/DTSTART difference == elapsed time for any span (C08.diff), every ISO spelling of a DURATION reads as its value incl. weeks/days and signs (C18.idiff.strp.*), the daemon writes the limit as PT<n>S with n = limit rounded up to seconds, a form the executor's parser accepts (C14.vtodoify + C18.idiff.strp.uS). The executor's ms->s hop and the DUE comparison are inside the 600-line echsx() and were only demonstrated natively.",
+  level_note="Trusted: libc %d (the recorder captures format and argument), ghost recorder replacing fdprnt.h in C14.vtodoify. Not covered: echsx's hop from the parsed duration to alarm() (fixed, natively demonstrated: DURATION:PT2S killed after 2.0 s), DUE handling, the kill itself, scheduling jitter.",
+  explanation="numeric chain of the limit is covered by discharged contracts hop by hop except inside echsx(); the kill itself is kernel behaviour",
+  not_covered=["echsx(): parsed limit -> alarm() argument, DUE vs now", "signal delivery / process kill", "make_task DTEND branch wiring in evical.c"])
+O("C14.vtodoify", "C14", "h_C14.c", "h_C14_vtodoify",
+  "vtodoify: for every limit 0..400 days the execution request carries one DURATION line, in the form PT<n>S, with n = the limit in ms rounded up to whole seconds",
+  ["vtodoify"], solver=["minisat", "kissat", "z3"], timeout={"quick": 600, "thorough": 1800}, unwind=18, replay=False, replay_note="fdprnt.h replaced by recorder",
+  assumptions=["fdprnt.h replaced by a ghost recorder in this translation unit (format pointer and first integer argument of the DURATION line)", "libc %d prints the decimal digits of its argument"])
